@@ -22,7 +22,10 @@ StrictPfx(a, b) == Len(a) < Len(b) /\ SubSeq(b, 1, Len(a)) = a
 
 \* ------------------------------------------------------------------ abstract scenario space (C19)
 SpokKinds == {"formatted", "unformatted", "syntaxbad", "loadbad", "missing"}
-Actions   == {"none", "tasks", "show", "vars", "fmt", "init", "force", "quiet", "json", "debug"}
+\* what can be put on the command line: the nine boolean flags and (abstractly) "a task name is given"
+Flags     == {"init", "fmt", "vars", "clean", "show", "quiet", "debug", "json", "force", "task"}
+CONSTANT MaxFlags
+FlagSets  == {F \in SUBSET Flags : Cardinality(F) <= MaxFlags}
 Cwds      == {"root", "nested"}
 
 VARIABLES kind, cwd, gitignore, dotenv, cache, last
@@ -32,28 +35,43 @@ CInit == /\ kind \in SpokKinds /\ cwd \in Cwds /\ gitignore \in BOOLEAN /\ doten
          /\ cache = FALSE /\ last = "-"
 
 Valid == kind \in {"formatted", "unformatted"}
-RunsTasks(a) == a \in {"tasks", "force", "quiet", "json", "debug"}
+\* dispatch precedence of cli/app.Run: --init before everything; --quiet with --debug is refused; then the spokfile must be
+\* found, parsed and loaded; then --fmt, --vars, --clean, --show in that order; otherwise run the named tasks, or `default`
+\* (every valid spokfile of the scenario space defines one)
+Effective(F) ==
+  IF "init" \in F THEN "init"
+  ELSE IF {"quiet", "debug"} \subseteq F THEN "refused"
+  ELSE IF ~Valid THEN "refused"
+  ELSE IF "fmt" \in F THEN "fmt"
+  ELSE IF "vars" \in F THEN "vars"
+  ELSE IF "clean" \in F THEN "clean"
+  ELSE IF "show" \in F THEN "show"
+  ELSE "run"
 \* one invocation; the abstract effect on the state
-Invoke(a) ==
+Invoke(F) ==
+  LET a == Effective(F) IN
   /\ last' = a
   /\ CASE a = "init" -> /\ kind' = (IF cwd = "root" /\ kind = "missing" THEN "formatted" ELSE kind)   \* a new spokfile appears in the cwd only,
                         /\ gitignore' = (IF cwd = "root" /\ kind = "missing" THEN TRUE ELSE gitignore)       \* never over an existing one
                         /\ UNCHANGED <<cwd, dotenv, cache>>
        [] a = "fmt"  -> /\ kind' = (IF kind = "unformatted" THEN "formatted" ELSE kind)
                         /\ UNCHANGED <<cwd, gitignore, dotenv, cache>>
-       [] RunsTasks(a) -> /\ cache' = (cache \/ Valid)
-                          /\ UNCHANGED <<kind, cwd, gitignore, dotenv>>
+       [] a = "run"  -> /\ cache' = TRUE
+                        /\ UNCHANGED <<kind, cwd, gitignore, dotenv>>
+       [] a = "clean" -> /\ cache' = FALSE                                                            \* the built-in clean removes the cache
+                         /\ UNCHANGED <<kind, cwd, gitignore, dotenv>>
        [] OTHER -> UNCHANGED <<kind, cwd, gitignore, dotenv, cache>>
-CNext == \E a \in Actions : Invoke(a)
+CNext == \E F \in FlagSets : Invoke(F)
 CSpec == CInit /\ [][CNext]_cvars
 
 \* design-level frame facts of the abstract machine
-FmtOnlyWhenValid == [][(last' = "fmt" /\ kind' # kind) => kind = "unformatted"]_cvars
-CacheOnlyByRuns  == [][cache' # cache => RunsTasks(last') /\ Valid]_cvars
-ReadOnlyActions  == [][last' \in {"none", "show", "vars"} => UNCHANGED <<kind, gitignore, dotenv, cache>>]_cvars
-\* scenario export: one line per (state, action)
-EmitScen == \A a \in Actions : PrintT(<<"CLI", ToJson([kind |-> kind, cwd |-> cwd, gitignore |-> gitignore, dotenv |-> dotenv,
-                                                       cache |-> cache, action |-> a])>>)
+FmtOnlyWhenValid == [][(kind' # kind /\ last' = "fmt") => kind = "unformatted"]_cvars
+CacheOnlyByRuns  == [][(cache' /\ ~cache) => (last' = "run" /\ Valid)]_cvars
+ReadOnlyActions  == [][last' \in {"refused", "show", "vars"} => UNCHANGED <<kind, gitignore, dotenv, cache>>]_cvars
+InitNeverOverwrites == [][(last' = "init" /\ kind # "missing") => kind' = kind]_cvars
+\* scenario export: one line per (state, flag set) with the action the dispatch rules select
+EmitScen == \A F \in FlagSets : PrintT(<<"CLI", ToJson([kind |-> kind, cwd |-> cwd, gitignore |-> gitignore, dotenv |-> dotenv,
+                                                         cache |-> cache, flags |-> F, action |-> Effective(F)])>>)
 
 \* ------------------------------------------------------------------ trees and changes (records from the driver)
 \* entry: [p |-> <<segment>>, k |-> "file" | "dir" | "link" | "other", mode, h |-> content hash, lines |-> <<text line>>]
@@ -71,7 +89,7 @@ Exists(t, p) == p \in Paths(t)
 CacheDir(s) == s.proj \o <<".spok">>
 MayWrite(s, before, p) ==
   \/ IsPfx(CacheDir(s), p)                                                       \* the cache directory next to the spokfile
-  \/ s.action = "fmt" /\ s.kind \in {"formatted", "unformatted"} /\ p = s.proj \o <<"spokfile">>
+  \/ s.action = "fmt" /\ p = s.proj \o <<"spokfile">>                             \* (the action is "fmt" only when the spokfile parses and loads)
   \/ s.action = "init" /\ p = s.cwd \o <<"spokfile">> /\ ~Exists(before, p)      \* never overwrites an existing spokfile
   \/ s.action = "init" /\ p = s.cwd \o <<".gitignore">> /\ ~Exists(before, s.cwd \o <<"spokfile">>)
 Conforms_C19(r) ==
